@@ -252,6 +252,21 @@ def _signal_case(case):
                     e = 2.0 * outs[(fr, vt, 0)] - 0.5 * outs[(fr, vt, 3)]
                     if not np.max(np.abs(np.asarray(out.values) - e)) <= 1e-12:
                         fails.append(_sf("linearity", kind, "response(2a-0.5b) != 2 response(a) - 0.5 response(b) for %s" % vt.name))
+        # the same antenna object on other grids: same length with another step, another length, and back -- the response
+        # belongs to the frequencies of the grid at hand, whatever was evaluated before
+        for mul, nn in ((2.0, N), (0.5, N), (1.0, 2 * N), (4.0, N // 2), (1.0, N)):
+            tt = np.arange(nn) * DT * mul + 5 * DT
+            vv = np.array([math.sin(0.7 * i) + 0.5 * math.cos(2.1 * i) for i in range(nn)])
+            for fr in (False, True):
+                n += 1
+                out = obj.apply_response(Signal(tt, vv, T.voltage), direction=d, polarization=p, force_real=fr)
+                ref, _ = dft.filtered_reference(vv, DT * mul, resp, fr, use_fft=2 * nn > 160)
+                exp = ref * dg * pg * eff
+                if np.shape(out.values) != (nn,) or not np.max(np.abs(np.asarray(out.values) - exp)) <= 1e-11:
+                    fails.append(_sf("response-regrid", kind, "after other grids, a %d-sample signal with step %g x dt (force_real=%s): response "
+                                     "%s..., its own filter gives %s..." % (nn, mul, fr, np.asarray(out.values)[:3].tolist(), exp[:3].tolist())))
+                else:
+                    nontriv.append("%s|regrid|%s|%g|%d|%s" % (kind, z, mul, nn, fr))
         # receive of an (s,p) pair == sum of the two responses, exactly one signal stored
         ant.clear()
         s1 = Signal(t, base[0], T.field)
